@@ -152,7 +152,6 @@ type issueResult struct {
 	returned string   // identifier reported to the user (return data / ESDTTransfer data), "" when none
 }
 
-
 // issue runs issue / issueSemiFungible / issueNonFungible with a valid token name and ticker
 func (w *world) issue(kind, ticker string, caller []byte) issueResult {
 	args := [][]byte{[]byte("TokenName"), []byte(ticker)}
@@ -340,13 +339,15 @@ func search(h hashing.Hasher, caller []byte, target int, start uint64) ([]byte, 
 			copy(seed, "verif-c41-random-seed-")
 			n := uint64(0)
 			for c := start + uint64(g); ; c += workers {
-				select {
-				case <-stop:
-					mu.Lock()
-					tried += n
-					mu.Unlock()
-					return
-				default:
+				if n&1023 == 0 {
+					select {
+					case <-stop:
+						mu.Lock()
+						tried += n
+						mu.Unlock()
+						return
+					default:
+					}
 				}
 				binary.BigEndian.PutUint64(seed[24:], c)
 				d := h.Compute(string(buf))
